@@ -130,7 +130,7 @@ class Corr:
 
     @property
     def reweighted(self):
-        bool_array = np.array([list(map(lambda x: x.reweighted, o)) for o in [x for x in self.content if x is not None]])
+        bool_array = np.array([list(map(lambda x: x.reweighted, np.ravel(o))) for o in [x for x in self.content if x is not None]])
         if np.all(bool_array == 1):
             return True
         elif np.all(bool_array == 0):
